@@ -172,6 +172,7 @@ func C04(c *Ctx) {
 	// recovery operators whose recovery expression holds inline code blocks, with labels bound at
 	// the level of the operator (guarded and recovery expression share one label scope)
 	c.c04Chunk(c04RecoveryStrata(), flagSets, rng, false)
+	c.c04Raw(flagSets)
 	c.c04Unicode()
 	c.runKnownC04()
 	c.runKnownC09()
@@ -333,6 +334,67 @@ func c04Strata() []*gast.Grammar {
 		{Name: "KEY", Expr: act(gast.L("!"), 4)},
 	}}
 	return []*gast.Grammar{g1, g2, g3}
+}
+
+// c04Raw: hand-written texts. (a) well-typed code blocks that use Go's predeclared identifiers the
+// way user code may (the runtime shares the package with them); (b) spellings the front-end may or
+// may not accept - if it accepts one, the result must build, vet and initialise like any other.
+func (c *Ctx) c04Raw(flagSets [][]string) {
+	builtins := "{\npackage %PKG%\n\ntype pair struct{ lo, hi float64 }\n}\n\n" +
+		"S <- a:A b:B* !. {\n\tm := map[string]float64{\"k\": 1.5}\n\tlo := min(1.5, 2.5, m[\"k\"])\n\thi := max(\"a\", \"b\", \"c\")\n\tclear(m)\n\txs := append([]any{}, a, b)\n\tys := make([]any, len(xs), cap(xs)+1)\n\tcopy(ys, xs)\n\tdelete(m, \"k\")\n\tp := new(pair)\n\tp.lo, p.hi = lo, real(complex(2, 3))\n\tprintln := len(hi)\n\t_ = println\n\treturn len(ys), nil\n}\n" +
+		"A <- [a-c]+ &{ return min(len(c.text), 3) >= 0 && max(1, 2) == 2, nil }\n" +
+		"B <- ',' A #{ c.state[\"n\"] = min(2, 3); return nil }\n"
+	miscased := "{\npackage %PKG%\n}\nS <- [\\p{greek}]* [\\p{old_italic}\\p{LATIN}]? [\\p{lu}] / 'x'\n"
+	type rawCase struct {
+		name, text string
+		mayReject  bool
+	}
+	for _, rc := range []rawCase{{"predeclared identifiers in code blocks", builtins, false}, {"Unicode class names in another letter case", miscased, true}} {
+		g := &gast.Grammar{Raw: rc.text, Rules: []*gast.Rule{{Name: "S", Expr: gast.Star(gast.Dot())}}}
+		g.UsesState = rc.name[0] == 'p'
+		var fs [][]string
+		for i, f := range flagSets {
+			if i%3 == 0 && !hasFlag(f, "-receiver-name") {
+				fs = append(fs, f)
+			}
+		}
+		bt := c.BuildUnits([]*gast.Grammar{g}, fs, false, nil)
+		vet := bt.Vet()
+		var cases []*mon.Case
+		for _, u := range bt.Units {
+			c.Eval(1)
+			if u.Gen.Exit != 0 {
+				if !rc.mayReject {
+					c.Report(&Violation{Class: "C04/rejected", Summary: fmt.Sprintf("pigeon rejects a valid grammar (%s; exit %d): %s; flags [%s]", rc.name, u.Gen.Exit, firstLine(u.Gen.Stderr), u.FlagID), Grammar: u.Text, Flags: u.Flags})
+				} else {
+					c.CovAdd("raw_texts_rejected_by_the_front_end", 1)
+				}
+				continue
+			}
+			if !u.OK {
+				c.Report(&Violation{Class: "C04/compile", Summary: fmt.Sprintf("the emitted file does not compile (%s): %s; flags [%s]", rc.name, u.Fail, u.FlagID), Grammar: u.Text, Flags: u.Flags})
+				continue
+			}
+			if v := vet[u.Pkg]; len(v) > 0 {
+				c.Report(&Violation{Class: "C04/vet", Summary: fmt.Sprintf("go vet complains (%s): %s; flags [%s]", rc.name, strings.Join(v, " | "), u.FlagID), Grammar: u.Text, Flags: u.Flags})
+			}
+			cases = append(cases, &mon.Case{ID: u.Pkg, Pkg: u.Pkg, Input: []byte("ab,c"), MaxExpr: 100000})
+		}
+		res := bt.Run(cases, batch.RunOpts{})
+		for _, cs := range cases {
+			r := res[cs.ID]
+			if r == nil || r.Died != "" {
+				d := "no result"
+				if r != nil {
+					d = r.Died
+				}
+				c.Report(&Violation{Class: "C04/init", Summary: fmt.Sprintf("the process importing the generated package (%s) does not start or dies: %s", rc.name, trunc(d)), Grammar: rc.text})
+				continue
+			}
+			c.Distinct("raw/" + rc.name + cs.ID)
+		}
+		bt.Close()
+	}
 }
 
 // hasRecovery: the labels a block inside a recovery expression sees at run time are those of the
